@@ -24,13 +24,13 @@ EXTENDS Integers, Sequences, FiniteSets, TLC, Json, IOUtils
 
 Trace == ndJsonDeserialize(IOEnv.TRACE_FILE)
 
-VARIABLES l, t,
+VARIABLES l, t, kind,
           applied,    \* surviving history: sequence of [num, evs]
           halted,     \* "no" | "yes" | "maybe" (inconsistent answer of a call that also had an injected fault)
           lastOp,     \* description of the last operation (for reporting)
           viol
 
-vars == <<l, t, applied, halted, lastOp, viol>>
+vars == <<l, t, kind, applied, halted, lastOp, viol>>
 
 TreeH == 32
 P2(h) == IF h >= 20 THEN 1048576 ELSE 2 ^ h      \* fewer than 2^20 leaves in any trace; avoids 32-bit overflow
@@ -39,7 +39,8 @@ Min(a, b) == IF a < b THEN a ELSE b
 RECURSIVE LeafRecsOfEvs(_, _, _)
 LeafRecsOfEvs(evs, num, p) ==
   IF evs = <<>> THEN <<>>
-  ELSE (IF Head(evs).t = "leaf" THEN <<[x |-> Head(evs).x, dc |-> Head(evs).dc, b |-> num, p |-> p]>> ELSE <<>>)
+  ELSE (IF Head(evs).t = "leaf"
+        THEN <<[x |-> Head(evs).x, dc |-> IF "dc" \in DOMAIN Head(evs) THEN Head(evs).dc ELSE -1, b |-> num, p |-> p]>> ELSE <<>>)
        \o LeafRecsOfEvs(Tail(evs), num, p + 1)
 RECURSIVE LeafRecs(_)
 LeafRecs(bs) == IF bs = <<>> THEN <<>> ELSE LeafRecsOfEvs(Head(bs).evs, Head(bs).num, 0) \o LeafRecs(Tail(bs))
@@ -63,7 +64,7 @@ WalkByRoot == {"GetProof", "GetL1InfoTreeMerkleProofFromIndexToRoot", "GetRollup
 
 LastNum == IF applied = <<>> THEN 0 ELSE applied[Len(applied)].num
 
-V(kind, info) == [t |-> t, l |-> l, inv |-> kind, info |-> info, after |-> lastOp]
+V(pred, info) == [t |-> t, l |-> l, inv |-> pred, info |-> info, after |-> lastOp]
 
 -----------------------------------------------------------------------------
 (* what a snapshot must look like when the store is serving data *)
@@ -114,27 +115,143 @@ ServingViolations(s) ==
 (* what a snapshot must look like while the store is halted: every data query refuses with the inconsistency error *)
 RefusingViolations(s) ==
   LET bad == { m \in DOMAIN s.classes : s.classes[m] # <<"incons">> }
-      structural == s.last.c = "incons" /\ s.bridges.c = "incons"
-                    /\ (\A i \in DOMAIN s.roots : s.roots[i].c = "incons") /\ (\A i \in DOMAIN s.byler : s.byler[i].c = "incons")
-  IN IF bad = {} /\ structural THEN <<>> ELSE <<V("GuardWhileHalted", [unguarded |-> bad, last |-> s.last])>>
+  IN IF bad = {} /\ s.last.c = "incons" THEN <<>> ELSE <<V("GuardWhileHalted", [unguarded |-> bad, last |-> s.last])>>
+
+-----------------------------------------------------------------------------
+(* ---- L1 info tree store (C11 and the l1info part of C04 C07 C08 C14) ---- *)
+RECURSIVE VerifiesOfEvs(_, _, _)
+VerifiesOfEvs(evs, num, p) ==
+  IF evs = <<>> THEN <<>>
+  ELSE (IF Head(evs).t = "verify" THEN <<[r |-> Head(evs).r, x |-> Head(evs).x, b |-> num, p |-> p]>> ELSE <<>>)
+       \o VerifiesOfEvs(Tail(evs), num, p + 1)
+RECURSIVE Verifies(_)
+Verifies(bs) == IF bs = <<>> THEN <<>> ELSE VerifiesOfEvs(Head(bs).evs, Head(bs).num, 0) \o Verifies(Tail(bs))
+
+(* effective updates of the rollup exit tree: zero and unchanged exit roots are skipped; each carries the tree state f *)
+RECURSIVE UStates(_, _, _)
+UStates(vs, f, acc) ==
+  IF vs = <<>> THEN acc
+  ELSE LET v == Head(vs) pos == v.r - 1 IN
+       IF v.x = 0 \/ (pos \in DOMAIN f /\ f[pos] = v.x) THEN UStates(Tail(vs), f, acc)
+       ELSE LET g == (pos :> v.x) @@ f IN UStates(Tail(vs), g, Append(acc, [r |-> v.r, x |-> v.x, b |-> v.b, p |-> v.p, f |-> g]))
+EmptyFn == [i \in {} |-> 0]
+
+SortedPairs(S) == \* S: set of <<pos, x>> with distinct pos -> sequence sorted by pos
+  LET n == Cardinality(S)
+      rank(e) == Cardinality({d \in S : d[1] < e[1]}) + 1
+  IN [i \in 1..n |-> CHOOSE e \in S : rank(e) = i]
+UName(f, h, k) ==
+  LET lo == k * P2(h)
+      inside == { pos \in DOMAIN f : (h >= 20 /\ k = 0) \/ (h < 20 /\ pos >= lo /\ pos < lo + P2(h)) } IN
+  IF inside = {} \/ (h >= 20 /\ k > 0) THEN ZeroName(h)
+  ELSE [t |-> "u", h |-> h, ls |-> SortedPairs({ <<pos - lo, f[pos]>> : pos \in inside })]
+ExpUSibs(f, pos) ==
+  LET all == [h \in 0..(TreeH - 1) |-> UName(f, h, SibK(pos, h))]
+  IN SelectSeq([i \in 1..TreeH |-> <<i - 1, all[i - 1]>>], LAMBDA e : e[2].t # "z")
+
+L1ServingViolations(s) ==
+  LET recs  == LeafRecs(applied)
+      atoms == Atoms(recs)
+      n     == Len(recs)
+      us    == UStates(Verifies(applied), EmptyFn, <<>>)
+      vLast == IF s.last.c = "ok" /\ s.last.v = LastNum THEN <<>> ELSE <<V("LastProcessedBlock", [got |-> s.last, want |-> LastNum])>>
+      badInfos == { i \in DOMAIN s.infos :
+                      LET q == s.infos[i] IN
+                      IF q.i < n
+                      THEN ~(q.c = "ok" /\ q.x = recs[q.i + 1].x /\ q.li = q.i /\ q.b = recs[q.i + 1].b /\ q.p = recs[q.i + 1].p
+                             /\ q.ger = [t |-> "ger", h |-> 0, ls |-> <<q.x>>] /\ q.hash = [t |-> "s", h |-> 0, ls |-> <<q.x>>])
+                      ELSE q.c # "notfound" }
+      vInfos == IF badInfos = {} THEN <<>>
+                ELSE LET i == CHOOSE j \in badInfos : TRUE IN <<V("InfoLeaves", [got |-> s.infos[i], leaves |-> atoms])>>
+      badGer == { i \in DOMAIN s.byger :
+                    LET q == s.byger[i]
+                        hit == { j \in 1..n : atoms[j] = q.x } IN
+                    IF hit = {} THEN q.c # "notfound"
+                    ELSE ~(q.c = "ok" /\ q.gx = q.x /\ q.i + 1 \in hit) }
+      vGer == IF badGer = {} THEN <<>>
+              ELSE LET i == CHOOSE j \in badGer : TRUE IN <<V("InfoLeaves", [byger |-> s.byger[i], leaves |-> atoms])>>
+      badRoots == { i \in DOMAIN s.roots :
+                      LET r == s.roots[i] IN
+                      IF r.i < n
+                      THEN ~(r.c = "ok" /\ r.n = RootName(atoms, r.i) /\ r.ri = r.i /\ r.b = recs[r.i + 1].b /\ r.p = recs[r.i + 1].p)
+                      ELSE r.c # "notfound" }
+      vRoots == IF badRoots = {} THEN <<>>
+                ELSE LET i == CHOOSE j \in badRoots : \A k \in badRoots : j <= k IN
+                     <<V("RootMirrors", [idx |-> s.roots[i].i, got |-> s.roots[i], leaves |-> atoms])>>
+      vLastRoot == IF (n = 0 /\ s.lastroot.c = "notfound")
+                      \/ (n > 0 /\ s.lastroot.c = "ok" /\ s.lastroot.n = RootName(atoms, n - 1) /\ s.lastroot.ri = n - 1)
+                   THEN <<>> ELSE <<V("RootMirrors", [lastroot |-> s.lastroot, leaves |-> atoms])>>
+      wantPairs == { <<r, p, FALSE>> : r \in 0..(n - 1), p \in 0..(n - 1) } \cap { q \in (0..(n - 1)) \X (0..(n - 1)) \X {FALSE} : q[2] <= q[1] }
+      ownPairs == { <<r, r, TRUE>> : r \in 0..(n - 1) }
+      gotPairs == { <<s.proofs[i].r, s.proofs[i].p, "own" \in DOMAIN s.proofs[i]>> : i \in DOMAIN s.proofs }
+      badProofs == { i \in DOMAIN s.proofs :
+                       LET q == s.proofs[i] IN
+                       q.r < n /\ ~(q.c = "ok" /\ q.sib = ExpSibs(atoms, q.r + 1, q.p)
+                                    /\ ("own" \in DOMAIN q => q.n = RootName(atoms, q.r))) }
+      vProofs == IF gotPairs = wantPairs \cup ownPairs /\ badProofs = {} THEN <<>>
+                 ELSE IF badProofs # {}
+                 THEN LET i == CHOOSE j \in badProofs : TRUE IN
+                      <<V("ProofFolds", [got |-> s.proofs[i], want |-> ExpSibs(atoms, s.proofs[i].r + 1, s.proofs[i].p)])>>
+                 ELSE <<V("ProofFolds", [missing |-> (wantPairs \cup ownPairs) \ gotPairs, extra |-> gotPairs \ (wantPairs \cup ownPairs)])>>
+      nu == Len(us)
+      vULast == IF (nu = 0 /\ s.ulast.c = "notfound")
+                   \/ (nu > 0 /\ s.ulast.c = "ok" /\ s.ulast.n = UName(us[nu].f, TreeH, 0) /\ s.ulast.pos = us[nu].r - 1 /\ s.ulast.b = us[nu].b)
+                THEN <<>> ELSE <<V("RollupTree", [ulast |-> s.ulast, updates |-> [i \in 1..nu |-> <<us[i].r, us[i].x>>]])>>
+      badVer == { i \in DOMAIN s.verified :
+                    LET q == s.verified[i]
+                        mine == { j \in 1..nu : us[j].r = q.r } IN
+                    IF mine = {} THEN q.c # "notfound"
+                    ELSE LET j == CHOOSE x \in mine : \A y \in mine : y <= x IN
+                         ~(q.c = "ok" /\ q.x = us[j].x /\ q.b = us[j].b /\ q.rer = UName(us[j].f, TreeH, 0)) }
+      vVer == IF badVer = {} THEN <<>>
+              ELSE LET i == CHOOSE j \in badVer : TRUE IN
+                   <<V("RollupTree", [verified |-> s.verified[i], updates |-> [k \in 1..nu |-> <<us[k].r, us[k].x>>]])>>
+      wantU == UNION { { <<u, pos>> : pos \in DOMAIN us[u].f } : u \in 1..nu }
+      gotU == { <<s.uproofs[i].u, s.uproofs[i].pos>> : i \in DOMAIN s.uproofs }
+      badU == { i \in DOMAIN s.uproofs :
+                  LET q == s.uproofs[i] IN
+                  q.u <= nu /\ q.pos \in DOMAIN us[q.u].f
+                  /\ ~(q.c = "ok" /\ q.sib = ExpUSibs(us[q.u].f, q.pos) /\ q.lc = "ok" /\ q.lx = us[q.u].f[q.pos]) }
+      vU == IF gotU = wantU /\ badU = {} THEN <<>>
+            ELSE IF badU # {} THEN LET i == CHOOSE j \in badU : TRUE IN
+                 <<V("ProofFolds", [rollup |-> s.uproofs[i], want |-> ExpUSibs(us[s.uproofs[i].u].f, s.uproofs[i].pos)])>>
+            ELSE <<V("ProofFolds", [umissing |-> wantU \ gotU, uextra |-> gotU \ wantU])>>
+      vTwin == IF "twin" \in DOMAIN s /\ s.twin.diff # <<>> THEN <<V("TwinAgrees", s.twin)>> ELSE <<>>
+      vDead == IF "deadroot" \in DOMAIN s /\ s.deadroot.methods # <<>>
+               THEN <<V("ReorgedRootForgotten", [methods |-> s.deadroot.methods, example |-> s.deadroot.example,
+                                                 kf |-> IF \A i \in DOMAIN s.deadroot.methods : s.deadroot.methods[i] \in WalkByRoot
+                                                        THEN "F10" ELSE "none"])>>
+               ELSE <<>>
+      vAmb == IF "ambiguous" \in DOMAIN s THEN <<V("INFRA-AmbiguousNames", s.ambiguous)>> ELSE <<>>
+  IN vLast \o vInfos \o vGer \o vRoots \o vLastRoot \o vProofs \o vULast \o vVer \o vU \o vTwin \o vDead \o vAmb
+
+(* F5: the block contains an effective rollup-tree update that brings the tree back to a state it already had in the
+   surviving history (its root hash is the primary key of the root table) *)
+RecursToEarlierState(e) ==
+  LET before == UStates(Verifies(applied), EmptyFn, <<>>)
+      after  == UStates(Verifies(Append(applied, [num |-> e.num, evs |-> e.evs])), EmptyFn, <<>>)
+  IN \E i \in (Len(before) + 1)..Len(after) : \E j \in 1..(i - 1) : after[j].f = after[i].f
 
 -----------------------------------------------------------------------------
 Init ==
   /\ TLCSet(1, 0)
-  /\ l = 1 /\ t = 0 /\ applied = <<>> /\ halted = "no" /\ lastOp = "init" /\ viol = <<>>
+  /\ l = 1 /\ t = 0 /\ kind = "bridge" /\ applied = <<>> /\ halted = "no" /\ lastOp = "init" /\ viol = <<>>
 
 Ev(e) == l <= Len(Trace) /\ Trace[l].ev = e
 
 EvReset ==
   /\ Ev("reset")
-  /\ t' = Trace[l].t /\ applied' = <<>> /\ halted' = "no" /\ lastOp' = "reset"
+  /\ t' = Trace[l].t /\ kind' = Trace[l].kind /\ applied' = <<>> /\ halted' = "no" /\ lastOp' = "reset"
   /\ l' = l + 1 /\ UNCHANGED viol
 
 (* a block is valid for the surviving history if its deposit counts continue it without a gap *)
 ValidBlock(e) ==
-  LET n == Len(LeafRecs(applied))
-      ls == LeafRecsOfEvs(e.evs, e.num, 0)
-  IN \A i \in DOMAIN ls : ls[i].dc = n + i - 1
+  IF kind = "bridge"
+  THEN LET n == Len(LeafRecs(applied))
+           ls == LeafRecsOfEvs(e.evs, e.num, 0)
+       IN \A i \in DOMAIN ls : ls[i].dc = n + i - 1
+  ELSE \A i \in DOMAIN e.evs : e.evs[i].t = "v2" =>
+          (e.evs[i].good /\ (LeafRecs(applied) # <<>> \/ \E j \in 1..(i - 1) : e.evs[j].t = "leaf"))
 
 EvProcess ==
   /\ Ev("process")
@@ -152,8 +269,9 @@ EvProcess ==
           [] OTHER ->   \* an error: nothing may have changed (checked by the next snapshot)
                /\ UNCHANGED <<applied, halted>>
                /\ viol' = viol \o (IF e.fault = "none" /\ halted = "no" /\ ValidBlock(e)
-                                   THEN <<V("FaultFreeProcessFailed", [num |-> e.num, err |-> e.err])>> ELSE <<>>)
-  /\ l' = l + 1 /\ UNCHANGED t
+                                   THEN <<V("FaultFreeProcessFailed", [num |-> e.num, err |-> e.err,
+                                            kf |-> IF kind = "l1info" /\ RecursToEarlierState(e) THEN "F5" ELSE "none"])>> ELSE <<>>)
+  /\ l' = l + 1 /\ UNCHANGED <<t, kind>>
 
 EvReorg ==
   /\ Ev("reorg")
@@ -164,27 +282,28 @@ EvReorg ==
      \* C14: cleared only by a reorg that actually removed processed blocks
      /\ halted' = IF e.res = "ok" /\ Len(keep) < Len(applied) THEN "no" ELSE halted
      /\ viol' = viol \o (IF e.res # "ok" THEN <<V("ReorgFailed", e)>> ELSE <<>>)
-  /\ l' = l + 1 /\ UNCHANGED t
+  /\ l' = l + 1 /\ UNCHANGED <<t, kind>>
 
 EvRestart ==
   /\ Ev("restart")
   /\ lastOp' = [op |-> "restart"]
   /\ halted' = "no"          \* a new process has not detected anything yet
-  /\ l' = l + 1 /\ UNCHANGED <<t, applied, viol>>
+  /\ l' = l + 1 /\ UNCHANGED <<t, kind, applied, viol>>
 
 EvSnap ==
   /\ Ev("snap")
   /\ LET s == Trace[l].s
          h == IF halted = "maybe" THEN (IF s.last.c = "incons" THEN "yes" ELSE "no") ELSE halted
      IN /\ halted' = h
-        /\ viol' = viol \o (IF h = "yes" THEN RefusingViolations(s) ELSE ServingViolations(s))
-  /\ l' = l + 1 /\ UNCHANGED <<t, applied, lastOp>>
+        /\ viol' = viol \o (IF h = "yes" THEN RefusingViolations(s)
+                            ELSE IF kind = "l1info" THEN L1ServingViolations(s) ELSE ServingViolations(s))
+  /\ l' = l + 1 /\ UNCHANGED <<t, kind, applied, lastOp>>
 
 Finish ==
   /\ l = Len(Trace) + 1
   /\ PrintT(<<"VIOL", ToJson(viol)>>)
   /\ PrintT(<<"DONE", ToJson([lines |-> Len(Trace), traces |-> t])>>)
-  /\ l' = l + 1 /\ UNCHANGED <<t, applied, halted, lastOp, viol>>
+  /\ l' = l + 1 /\ UNCHANGED <<t, kind, applied, halted, lastOp, viol>>
 
 Next == EvReset \/ EvProcess \/ EvReorg \/ EvRestart \/ EvSnap \/ Finish
 Spec == Init /\ [][Next]_vars
